@@ -368,12 +368,18 @@ class Patched:
         if not lg.handlers:
             lg.addHandler(logging.NullHandler())
         lg.propagate = False
-        self.saved = (helpers.get_context, helpers.sleep, cm.SharedMemory, hh.SharedMemory, hl.SharedMemory)
+        self.saved = (helpers.get_context, helpers.sleep)
         ctx = self.ctx
         helpers.get_context = lambda method=None: ctx
         helpers.sleep = ctx.sleep
         RecordingSharedMemory.created = []
-        cm.SharedMemory = hh.SharedMemory = hl.SharedMemory = RecordingSharedMemory
+        from vf import cbmod
+
+        def _yield():  # the callback "takes time": a scheduling point inside every callback call of a worker
+            if ctx.sched.current is not ctx.sched.parent:
+                ctx.sched.switch()
+
+        cbmod.yield_hook = _yield
         # the machine's core count is part of the environment: pretend 1, 2 or 64 physical cores
         self.saved_cpu = helpers.psutil.cpu_count
         cores = self.cores
@@ -385,6 +391,9 @@ class Patched:
         try:
             self.ctx.sched.shutdown()
         finally:
-            helpers.get_context, helpers.sleep, cm.SharedMemory, hh.SharedMemory, hl.SharedMemory = self.saved
+            from vf import cbmod
+
+            cbmod.yield_hook = None
+            helpers.get_context, helpers.sleep = self.saved
             helpers.psutil.cpu_count = self.saved_cpu
         return False
